@@ -371,7 +371,9 @@ def run_case(model: core.Model, backend: str, src: str, feat: set, uni: qgen.Uni
                     e2 = {x[0]: list(x[1]) for x in res2[1:]}
                     for kind in ("unique_decls", "well_scoped", "branch_members"):
                         for n in sorted(set(e2[kind])):
-                            r.findings.append((f"c02:write-again:{kind}:{base(n)}", f"second rendering of the same translated query: {kind} fails for {n}"))
+                            k1 = _key_for(kind, n, r.feat)  # a known class of the first rendering is the same class here
+                            r.findings.append((k1 if k1 == "c02:agg-summand-outer-only" else f"c02:write-again:{kind}:{base(n)}",
+                                               f"second rendering of the same translated query: {kind} fails for {n}"))
             except cxx.ParseError:
                 pass  # the first rendering's parse decides (below)
     for t in (token_errors(backend, c.prog) if c.prog is not None else []):
